@@ -1,6 +1,7 @@
 package main
 
 import (
+	"go/parser"
 	"fmt"
 	"go/constant"
 	"go/token"
@@ -44,6 +45,7 @@ type loopInfo struct {
 	wkeys     map[string]bool
 	wall      bool
 	variant   Term
+	heldPre   Term // HELD at loop entry (lock discipline: iterations are lock-balanced)
 }
 
 // FT translates one SSA function into a passive-form VC and its obligations.
@@ -792,6 +794,18 @@ func (ft *FT) run() {
 			ft.assume("true", t)
 		}
 	}
+	// lock discipline: a function under contract is entered without the mutexes of its parameters held by
+	// the calling goroutine, unless its contract says otherwise (a `held...` precondition or `holdslock`).
+	// Justified by the lock-reentry@call obligation at every call site inside verified code; callers
+	// outside the package cannot hold an unexported mutex.
+	if ft.lockDiscipline() {
+		ctx := ft.specCtx(st0, st0)
+		for _, txt := range paramMutexes(fn) {
+			if l, ok := ft.lockExprTerm(ctx, txt); ok {
+				ft.assume("true", eq(app("select", ft.get(st0, heldKey(ft)), l), "0"))
+			}
+		}
+	}
 	order := ft.rpo()
 	for _, b := range order {
 		ft.block(b, st0)
@@ -990,6 +1004,11 @@ func (ft *FT) loopHead(li *loopInfo, st *State, guard Term, phiVals map[*ssa.Phi
 			}
 		}
 	}
+	// lock discipline: an iteration leaves the locks as it found them (checked at every back edge)
+	if ft.lockDiscipline() && !li.wall && li.wkeys["HELD"] && ft.heaps["HELD"] != nil {
+		ft.assume(guard, eq(ft.get(hs, "HELD"), ft.get(st, "HELD")))
+		li.heldPre = ft.get(st, "HELD")
+	}
 	li.headState = hs.clone()
 	li.headOv = hov
 	if ft.con != nil && ft.con.HasMod && !li.wall {
@@ -1063,6 +1082,9 @@ func (ft *FT) loopBack(li *loopInfo, from *ssa.BasicBlock, st *State) {
 				ft.oblige("inv-step", pos, fmt.Sprintf("loop %d: frame of %s", li.ordinal, k), g, ft.frameFormula(st, k, byKey), true)
 			}
 		}
+	}
+	if li.heldPre != "" {
+		ft.oblige("inv-step", pos, fmt.Sprintf("loop %d: locks balanced over an iteration", li.ordinal), g, eq(ft.get(st, "HELD"), li.heldPre), true)
 	}
 	for _, inv := range li.con.Invariants {
 		t, err := ctx.boolExpr(inv.Expr)
@@ -1189,4 +1211,57 @@ func (ft *FT) assertAt(ins ssa.Instruction, st *State) {
 		}
 		ft.oblige("assert", token.NoPos, a.Text+" @ "+ft.srcText(ins.Pos()), ft.curGuard, t, true)
 	}
+}
+
+
+// lockExprTerm evaluates a contract expression `addr(p.f)` naming a mutex in the given context.
+func (ft *FT) lockExprTerm(ctx *SpecCtx, txt string) (Term, bool) {
+	e, err := parser.ParseExpr(txt)
+	if err != nil {
+		return "", false
+	}
+	v, err := ctx.expr(e)
+	if err != nil {
+		return "", false
+	}
+	return v.T, true
+}
+
+
+// lockDiscipline: the implicit lock-discipline assumptions and obligations apply to this function.
+func (ft *FT) lockDiscipline() bool {
+	if ft.con == nil || ft.con.HoldsLock {
+		return false
+	}
+	for _, r := range ft.con.Requires {
+		if strings.Contains(r.Text, "held(") || strings.Contains(r.Text, "heldw(") || strings.Contains(r.Text, "heldr(") {
+			return false
+		}
+	}
+	return true
+}
+
+// paramMutexes: `addr(p.f)` for every sync.Mutex / sync.RWMutex field f of a struct that parameter p points to.
+func paramMutexes(fn *ssa.Function) []string {
+	var out []string
+	for _, p := range fn.Params {
+		if p.Name() == "" || p.Name() == "_" {
+			continue
+		}
+		pt, ok := p.Type().Underlying().(*types.Pointer)
+		if !ok {
+			continue
+		}
+		st, ok := pt.Elem().Underlying().(*types.Struct)
+		if !ok {
+			continue
+		}
+		for i := 0; i < st.NumFields(); i++ {
+			ts := types.TypeString(st.Field(i).Type(), nil)
+			if ts == "sync.Mutex" || ts == "sync.RWMutex" {
+				out = append(out, "addr("+p.Name()+"."+st.Field(i).Name()+")")
+			}
+		}
+	}
+	return out
 }
